@@ -360,7 +360,7 @@ theorem enter_inv (s0 : St) (e : Cont) (hs0 : inLoop s0 = false) (hc : Consisten
 theorem enterOp_inv (s0 : St) (e : Cont) (hs0 : inLoop s0 = false) (hc : Consistent s0.vm)
     (st : St) (Y : List Cont) (h : Inv s0 e st Y) (hY : Y ≠ []) (pre args : Nat) (c : Callee) :
     ∃ Y', Inv s0 e (enterOp pre args c st) Y' :=
-  enterWith_inv s0 e hs0 hc st Y h hY false pre args c
+  enterWith_inv s0 e hs0 hc st Y h hY true pre args c
 
 theorem enterDirect_inv (s0 : St) (e : Cont) (hs0 : inLoop s0 = false) (hc : Consistent s0.vm)
     (st : St) (Y : List Cont) (h : Inv s0 e st Y) (hY : Y ≠ []) (pre : Nat) (ok : Bool) :
@@ -374,7 +374,8 @@ theorem enterDirect_inv (s0 : St) (e : Cont) (hs0 : inLoop s0 = false) (hc : Con
       fun hn => absurd hn hY⟩
   | false =>
     simp only [enterDirect]
-    exact raise_inv_of s0 e hs0 hc st Y h hY true _ rfl rfl rfl rfl
+    exact raise_inv_of s0 e hs0 hc st Y h hY true _ (by simp [truncate]) (by simp [truncate])
+      (by simp [truncate]) (by simp [truncate])
 
 theorem nested_inv (s0 : St) (e : Cont) (hs0 : inLoop s0 = false) (hc : Consistent s0.vm)
     (st : St) (Y : List Cont) (h : Inv s0 e st Y) (hY : Y ≠ []) (args a : Nat) :
